@@ -62,13 +62,35 @@ func buildAttr(n attrNode) slog.Attr {
 		for _, m := range n.G {
 			members = append(members, buildAttr(m))
 		}
-		return slog.NewGroupedAttr(n.key(), members...)
+		return mkGroup(n.key(), members)
 	}
 	vs := valSpecByName(n.V)
 	if vs == nil {
 		panic("unknown value spec " + n.V)
 	}
 	return slog.NewAttr(n.key(), vs.Mk())
+}
+
+// mkGroup builds a group through one of the constructors the API offers; which one depends on
+// the group's shape only (a group is a group however it was made).
+func mkGroup(key string, members []slog.Attr) slog.Attr {
+	switch (len(key) + len(members)) % 4 {
+	case 1:
+		return slog.NewAttr(key, slog.Attrs(members)) // what a "key", Attrs{...} pair in an argument list becomes
+	case 2:
+		args := make([]any, 0, len(members))
+		for _, m := range members {
+			args = append(args, m)
+		}
+		return slog.Group(key, args...)
+	case 3:
+		args := make([]any, 0, len(members))
+		for _, m := range members {
+			args = append(args, m)
+		}
+		return slog.NewGroupedAttrEasy(key, args...)
+	}
+	return slog.NewGroupedAttr(key, members...)
 }
 
 func buildAttrMut(n attrNode, pend *[]c07pending) slog.Attr {
